@@ -67,8 +67,8 @@ var zzScalars = []string{"0", "1", "2", "3", "7", "8", "15", "16", "17", "255", 
 	"FFFFFFFEFFFFFFFFFFFFFFFFFFFFFFFF7203DF6B21C6052B53BBF40939D54124", // n+1
 	"7FFFFFFF7FFFFFFFFFFFFFFFFFFFFFFFB901EFB590E30295A9DDFA049CEAA092", // about n/2
 	"FFFFFFFFFFFFFFFFFFFFFFFFFFFFFFFFFFFFFFFFFFFFFFFFFFFFFFFFFFFFFFFF",
-	"100000000000000000000000000000000",                                 // 2^128: a long run of zero digits
-	"100000000000000000000000000000000000000000000000001",               // 2^200 + 1
+	"100000000000000000000000000000000",                                // 2^128: a long run of zero digits
+	"100000000000000000000000000000000000000000000000001",              // 2^200 + 1
 	"8000000000000000000000000000000000000000000000000000000000000000"} // 2^255
 
 // H03-grouplaw-special: addition, doubling, scalar and base-point multiplication return the
@@ -78,26 +78,72 @@ var zzScalars = []string{"0", "1", "2", "3", "7", "8", "15", "16", "17", "255", 
 //
 //verif:property C03
 //verif:expect-reach end
-//verif:bound concrete points [k]G and [j]G for k, j in a fixed list of 22 scalars (thorough; quick: k in {1,n-6,n,2^200+1}, j = 1, 0..1 leading zero bytes) (0,1,2,3,7,8,15..17,255,256,65535,65536,n-6,n-1,n,n+1,~n/2,2^256-1), all pairs for Add; scalars given with 0..2 leading zero bytes; the real field and point arithmetic is executed, against an affine textbook reference over big integers
+//verif:bound concrete points [k]G and [j]G; quick: k one of {1,n-6,n,2^200+1} per harness, j = 1; thorough: k over the whole list of 22 scalars (dealt out to four harnesses), j in {1, n-1, 2^200+1}; scalars given with 0..1 leading zero bytes; list: (0,1,2,3,7,8,15..17,255,256,65535,65536,n-6,n-1,n,n+1,~n/2,2^256-1); the real field and point arithmetic is executed, against an affine textbook reference over big integers
 //verif:outside points and scalars outside the list (a universal statement needs the 256-bit field arithmetic symbolically, which is out of reach: DESIGN.md)
 //verif:unwind 600
-func zzH_c03_grouplaw_special() {
+//verif:budget 2400
+func zzH_c03_grouplaw_special() { zzGroupLawSpecial(0) }
+
+// H03-grouplaw-special (part 2 of the scalar list in the thorough tier; one scalar in the quick tier): addition, doubling, scalar and base-point multiplication return the
+// mathematical group result on the special cases the formulas do not cover by themselves:
+// equal inputs (must be the doubling), opposite inputs and infinity (as (0,0)), scalars 0, 1,
+// around the group order and with leading zero bytes; membership test on the results.
+//
+//verif:property C03
+//verif:expect-reach end
+//verif:bound concrete points [k]G and [j]G; quick: k one of {1,n-6,n,2^200+1} per harness, j = 1; thorough: k over the whole list of 22 scalars (dealt out to four harnesses), j in {1, n-1, 2^200+1}; scalars given with 0..1 leading zero bytes; list: (0,1,2,3,7,8,15..17,255,256,65535,65536,n-6,n-1,n,n+1,~n/2,2^256-1); the real field and point arithmetic is executed, against an affine textbook reference over big integers
+//verif:outside points and scalars outside the list (a universal statement needs the 256-bit field arithmetic symbolically, which is out of reach: DESIGN.md)
+//verif:unwind 600
+//verif:budget 2400
+func zzH_c03_grouplaw_special_2() { zzGroupLawSpecial(1) }
+
+// H03-grouplaw-special (part 3 of the scalar list in the thorough tier; one scalar in the quick tier): addition, doubling, scalar and base-point multiplication return the
+// mathematical group result on the special cases the formulas do not cover by themselves:
+// equal inputs (must be the doubling), opposite inputs and infinity (as (0,0)), scalars 0, 1,
+// around the group order and with leading zero bytes; membership test on the results.
+//
+//verif:property C03
+//verif:expect-reach end
+//verif:bound concrete points [k]G and [j]G; quick: k one of {1,n-6,n,2^200+1} per harness, j = 1; thorough: k over the whole list of 22 scalars (dealt out to four harnesses), j in {1, n-1, 2^200+1}; scalars given with 0..1 leading zero bytes; list: (0,1,2,3,7,8,15..17,255,256,65535,65536,n-6,n-1,n,n+1,~n/2,2^256-1); the real field and point arithmetic is executed, against an affine textbook reference over big integers
+//verif:outside points and scalars outside the list (a universal statement needs the 256-bit field arithmetic symbolically, which is out of reach: DESIGN.md)
+//verif:unwind 600
+//verif:budget 2400
+func zzH_c03_grouplaw_special_3() { zzGroupLawSpecial(2) }
+
+// H03-grouplaw-special (part 4 of the scalar list in the thorough tier; one scalar in the quick tier): addition, doubling, scalar and base-point multiplication return the
+// mathematical group result on the special cases the formulas do not cover by themselves:
+// equal inputs (must be the doubling), opposite inputs and infinity (as (0,0)), scalars 0, 1,
+// around the group order and with leading zero bytes; membership test on the results.
+//
+//verif:property C03
+//verif:expect-reach end
+//verif:bound concrete points [k]G and [j]G; quick: k one of {1,n-6,n,2^200+1} per harness, j = 1; thorough: k over the whole list of 22 scalars (dealt out to four harnesses), j in {1, n-1, 2^200+1}; scalars given with 0..1 leading zero bytes; list: (0,1,2,3,7,8,15..17,255,256,65535,65536,n-6,n-1,n,n+1,~n/2,2^256-1); the real field and point arithmetic is executed, against an affine textbook reference over big integers
+//verif:outside points and scalars outside the list (a universal statement needs the 256-bit field arithmetic symbolically, which is out of reach: DESIGN.md)
+//verif:unwind 600
+//verif:budget 2400
+func zzH_c03_grouplaw_special_4() { zzGroupLawSpecial(3) }
+
+func zzGroupLawSpecial(part int) {
 	c := P256Sm2()
 	// quick tier: a sub-list of the scalars and of the second points
 	ks, js := []int{1, 13, 15, 20}, []int{1}
 	if vTier() == 1 {
-		ks, js = nil, nil
+		// thorough tier: every scalar of the list (dealt out to the four harnesses) against the second
+		// points G, [n-1]G and [2^200+1]G (all 22 x 22 pairs would take about ten hours of bounded execution)
+		ks, js = nil, []int{1, 14, 20}
 		for i := range zzScalars {
-			ks, js = append(ks, i), append(js, i)
+			if i%4 == part {
+				ks = append(ks, i)
+			}
 		}
+	} else {
+		// quick tier: one of the four scalars per harness (they run in parallel)
+		ks = ks[part : part+1]
 	}
 	ki := ks[vChoice("k", len(ks))]
 	k, _ := new(big.Int).SetString(zzScalars[ki], 16)
 	kb := k.Bytes()
 	nz := 2
-	if vTier() == 1 {
-		nz = 3
-	}
 	for z := vChoice("leadingZeros", nz); z > 0; z-- {
 		kb = append([]byte{0}, kb...)
 	}
